@@ -45,13 +45,17 @@ TRUSTED = [
     "harness: integer scaling of unit vectors, near-tie filter, classification of a failing cell",
     "patch centres, radii and the pruning angle enter the linkage model as tables read from the implementation (get_centers, get_radii, get_max_angle); the radii are not trusted to be radii: each is checked to contain the objects of its patch around the stored centre (L3-cover, 2^-40 relative allowance for the implementation's float distance)",
 ]
+TRUSTED.append("the objects of the brute-force count are the records the library stored (Patch.load_data); their number and the multiset of "
+               "their (weight, redshift) values are compared with the generated input table in every IGN / L2T scenario (creation itself: C02)")
 ASSUMPTIONS = [
     "float rounding at interval ends is excluded (near ties skipped, counted in the evidence)",
     "weights are dyadic so float64 sums/products are exact; with separation weighting results are compared to 2^-40 relative",
 ]
 RULE = ("L1 cases = (points of two trees, scale list, weight_scale, weight_res); L3 cases = (auto/cross, catalogs with "
         "2-5 patches, 1-3 bins, scales, unit, region, shape of the data relative to the given centres, facing, line / 2x2 block, "
-        "centres as coordinates / catalog); distinct by generator parameters + data seed; non-trivial when at "
+        "centres as coordinates / catalog, ignored columns and values: redshift column of the unbinned sample, redshifts outside "
+        "the binning, weight column of ones, further columns, explicitly built trees); L2T cases = (tree entry point, two catalogs "
+        "with such columns, patch, bin / unbinned, scales); distinct by generator parameters + data seed; non-trivial when at "
         "least one pair falls inside some scale (L1) / some cell is non-zero (L3)")
 HEADER = "From Verif Require Import Prelude PairCount.\nOpen Scope Q_scope.\n"
 HEADER_IGN = "From Verif Require Import Prelude PairCount PairIgnored.\nOpen Scope Q_scope.\n"
@@ -235,6 +239,7 @@ def shaped(rng, centre, target, m, shape):
 
 # ---------------------------------------------------------------- L1
 def run_l1(ctx):
+    import random
     from yaw.catalog.trees import AngularTree
     rng = ctx.rng
     terms, metas = [], []
@@ -264,6 +269,16 @@ def run_l1(ctx):
         # the two trees are weighted independently of each other (weighted x unweighted included)
         wb = wa if same else ([rng.randrange(1, 17) / 4.0 for _ in pb] if rng.random() < 0.6 else None)
 
+        # no weights vs. an array of ones (own generator: the draws above are what they were without it)
+        orng = random.Random(ctx.seed * 104729 + k)
+        ones = ""
+        if wa is None and na > 0 and orng.random() < 0.35:
+            wa = [1.0] * len(pa); ones = "/ones"
+            if same:
+                wb = wa
+        if wb is None and nb > 0 and not same and orng.random() < 0.35:
+            wb = [1.0] * len(pb); ones = "/ones"
+
         def mk(pts, w):
             if not pts:
                 return AngularTree.empty(has_weights=w is not None)
@@ -292,7 +307,7 @@ def run_l1(ctx):
             continue
         inside = any(lo < d <= hi for d in d2s for lo, hi in cfg["thr"])
         ctx.count(key=("l1", tuple(map(tuple, pa)), tuple(map(tuple, pb)), tuple(amin), tuple(amax), ws, wres),
-                  nontrivial=inside, kind="L1/%s/%s" % ("cum" if len(ang_bins) < 8 else "bin", "w" if ws is not None else "now"))
+                  nontrivial=inside, kind="L1/%s/%s%s" % ("cum" if len(ang_bins) < 8 else "bin", "w" if ws is not None else "now", ones))
         wA = wa if wa is not None else [1.0] * len(A)
         wB = wb if wb is not None else [1.0] * len(B)
         terms.append("c01_tree_case %s %s %s %s" % (
@@ -442,6 +457,191 @@ def stored_vs_input(cat, pts, w, z):
     return "%d records stored for %d input rows; (weight, redshift) values differ" % (len(got), len(want))
 
 
+def tree_case(ctx, TC, entry, cid, edges, closed, OC, p, binC, OD, q, binD, cfg, t1, t2, got, meta):
+    """one pair of trees obtained from the implementation through `entry` (tree of patch p of catalog C for bin binC /
+    None = built without binning, likewise D, q, binD) against the selection of the model: counts, records, weight sums"""
+    selC = [o for o in OC if o[3] == p and (binC is None or o[2] == binC + 1)]
+    selD = [o for o in OD if o[3] == q and (binD is None or o[2] == binD + 1)]
+    if near_tie([d2(a[0], b[0]) for a in selC for b in selD], cfg["exact"]):
+        ctx.bump("near_tie_skipped")
+        return
+    rec = []
+    for which, t, sel_ in (("first", t1, selC), ("second", t2, selD)):
+        if t.num_records != len(sel_):
+            rec.append("%s tree holds %d records, its patch%s has %d objects" % (
+                which, t.num_records, "" if (binC if which == "first" else binD) is None else " and bin", len(sel_)))
+    lostrec = any(t.num_records < len(sel_) for t, sel_ in ((t1, selC), (t2, selD)))
+    ctx.count(key=("tree", entry, cid), nontrivial=bool(selC) and bool(selD), kind="L2T/%s/%s-%s" % (
+        entry, "unbinned" if binC is None else "bin", "unbinned" if binD is None else "bin"))
+    TC["terms"].append("c01_ign_tree_case %s %s %s %s %s %s %s %s %s %s %s %s %s %s" % (
+        fq.qlist([float(e) for e in edges]), fq.b(closed == "right"),
+        fq.lst([aobj_of(o) for o in OC]), fq.nat(p), fq.opt(binC, fq.nat),
+        fq.lst([aobj_of(o) for o in OD]), fq.nat(q), fq.opt(binD, fq.nat),
+        cfg_term(cfg), fq.qlist([float(x) for x in got]), fq.nat(t1.num_records), fq.nat(t2.num_records),
+        fq.q(float(t1.sum_weights)), fq.q(float(t2.sum_weights))))
+    meta = dict(meta, layer="L2T", entry=entry, patch=(p, q), bins=(binC, binD), got=[float(x) for x in got], records=rec,
+                num_records=(t1.num_records, t2.num_records), selected=(len(selC), len(selD)),
+                sum_weights=(float(t1.sum_weights), float(t2.sum_weights)))
+    TC["metas"].append(((cid, "tree", entry), entry, meta, lostrec))
+
+
+def finish_tree_cases(ctx, TC):
+    codes = ctx.shards("Cases_C01_L2T", HEADER_IGN, TC["terms"], shard=12)
+    ctx.log("L2T: %d tree cases evaluated" % len(TC["terms"]))
+    for (cid, entry, meta, lostrec), c in zip(TC["metas"], codes):
+        if not c:
+            continue
+        if c & 4:
+            ctx.fail("c01-tree-records-%s:%s" % ("lost" if lostrec else "differ", entry),
+                     "a tree obtained through %s does not hold the objects of its patch%s: %s" % (
+                         entry, " (tree built without binning: all objects of the patch, whatever its other columns hold)"
+                         if None in meta["bins"] else "", "; ".join(meta["records"]) or "record numbers differ"), meta, case=cid)
+        if c & 4:
+            continue        # weight sum and counts of a tree with the wrong objects follow from that
+        if c & 8:
+            ctx.fail("c01-tree-sum-weights:%s" % entry, "sum_weights of a tree obtained through %s is not the sum over the objects of "
+                     "its patch (and bin): %s" % (entry, meta["sum_weights"]), meta, case=cid)
+        if c & 2:
+            ctx.fail("c01-tree-count-mismatch:%s" % entry, "counts between two trees obtained through %s differ from the pair sum over "
+                     "(lo,hi] over all objects of the two patches (code %d)" % (entry, c), meta, case=cid)
+        if c & 1 and not c & 4:
+            ctx.disagree("Cases_C01_L2T", cid, dict(code=c, meta=meta))
+
+
+TREE_ENTRIES = ["build_trees", "BinnedTrees.build", "BinnedTrees.reopen", "Catalog.build_trees", "rebuild", "AngularTree"]
+
+
+def get_tree(entry, cat, pid, binning, rng):
+    """the tree(s) of one patch through one entry point; binning None = without binning"""
+    import yaw.catalog.trees as T
+    patch = cat[pid]
+    if entry == "build_trees":
+        return T.build_trees(patch, binning, leafsize=rng.choice([1, 4, 16]))
+    if entry == "BinnedTrees.build":
+        return T.BinnedTrees.build(patch, binning, leafsize=rng.choice([2, 16])).trees
+    if entry == "BinnedTrees.reopen":
+        T.BinnedTrees.build(patch, binning)
+        bt = T.BinnedTrees(patch)
+        if binning is None:
+            return next(iter(bt))
+        return tuple(bt)
+    if entry == "Catalog.build_trees":
+        if binning is None:
+            cat.build_trees(None, max_workers=1)
+        else:
+            cat.build_trees(binning.edges, closed=binning.closed, max_workers=1)
+        return T.BinnedTrees(patch).trees
+    if entry == "rebuild":     # trees of the other kind are cached first
+        from yaw.binning import Binning
+        if binning is None and patch.has_redshifts:
+            T.BinnedTrees.build(patch, Binning(np.array([0.05, 0.6, 3.0]), closed="left"))
+        elif binning is not None:
+            T.BinnedTrees.build(patch, None)
+        return T.BinnedTrees.build(patch, binning).trees
+    raise ValueError(entry)
+
+
+def run_trees(ctx):
+    """L2T: catalogs whose ignored columns carry values, through the tree entry points"""
+    import random
+    from yaw.binning import Binning
+    from yaw.catalog.trees import AngularTree
+    TC = dict(terms=[], metas=[])
+    N = ctx.n(18, 360)
+    for k in range(N):
+        rng = random.Random(ctx.seed * 7919 + 31 * k + 5)
+        entry = TREE_ENTRIES[k % len(TREE_ENTRIES)]
+        region = rng.choice(REGIONS)
+        nb = rng.choice([1, 2, 3])
+        zmin = rng.choice([0.002, 0.1, 0.5]); zmax = zmin + rng.choice([0.01, 0.5, 1.0])
+        edges = np.linspace(zmin, zmax, nb + 1)
+        zmid = (edges[:-1] + edges[1:]) / 2
+        closed = rng.choice(["right", "left"])
+        zvals = sorted(set(list(edges) + list(zmid)))
+        theta = rng.choice([0.2, 0.5, 1.0])
+        spacing = theta * rng.choice([0.8, 1.5])
+        cents = [offset(region[1], region[2], a * spacing, 0.0) for a in range(2)]
+        centers = impl.AngularCoordinates(np.deg2rad(np.asarray(cents)))
+        prof_c = rng.choice(REF_OUT_PROFILES)
+        prof_d = rng.choice([None] + UNK_Z_PROFILES * 3)
+        frac = rng.choice([0.2, 0.4, 0.7])
+        spec = dict(k=k, entry=entry, region=region[0], edges=[float(e) for e in edges], closed=closed, theta=theta, spacing=spacing,
+                    prof_c=prof_c, prof_d=prof_d, frac=frac)
+        cid = ("l2t", k)
+        cats, cols = {}, {}
+        try:
+            for name, n, prof in (("c", rng.choice([6, 12, 20]), prof_c), ("d", rng.choice([5, 10, 18]), prof_d)):
+                pts = [pt for c in cents for pt in cluster(rng, c[0], c[1], max(1, n // 2), spacing * 0.4)]
+                wmode = rng.choice(["none", "none", "ones", "values", "values"])
+                w = None if wmode == "none" else ([1.0] * len(pts) if wmode == "ones" else [rng.randrange(1, 9) / 2.0 for _ in pts])
+                if name == "c":
+                    z = ign_outside(rng, prof, [float(rng.choice(zvals)) for _ in pts], edges, zvals, frac)
+                else:
+                    z = ign_redshifts(rng, prof, len(pts), edges, zvals, frac) if prof else None
+                ex = rng.choice([None, None] + EXTRA_PROFILES)
+                extra = ign_extra(rng, ex, len(pts), w is not None, z is not None) if ex else None
+                cats[name] = make_catalog(ctx, "t%d%s" % (k, name), pts, w, z, centers, extra=extra)
+                cols[name] = (pts, w, z)
+                spec["cat_" + name] = dict(n=len(pts), weights=wmode, extra=ex)
+        except Exception as e:
+            for cat in cats.values():
+                shutil.rmtree(str(cat.cache_directory), ignore_errors=True)
+            if isinstance(e, ValueError) and ("contains no data" in str(e) or "patch centers and patch IDs with data do not match" in str(e)):
+                ctx.bump("skipped_empty_patch")
+                continue
+            import traceback
+            ctx.count(key=("l2t-raise", k), kind="L2T/raised")
+            ctx.fail("c01-catalog-creation-raises:%s" % type(e).__name__, "creating a valid catalog (with columns the measurement ignores) raised %r" % e,
+                     dict(layer="L2T", spec=spec, traceback=traceback.format_exc()[-1500:]), case=(cid, "raise"))
+            continue
+        try:
+            for name in cats:
+                diff = stored_vs_input(cats[name], *cols[name])
+                if diff:
+                    ctx.fail("c01-oracle-stored-records-differ-from-input", "catalog %r: %s" % (name, diff),
+                             dict(layer="L2T", spec=spec, catalog=name), case=(cid, "stored", name))
+            objs = {name: cat_objects(cat, edges, closed) for name, cat in cats.items()}
+            K = scale_of([o[0] for v in objs.values() for o in v])
+            iobj = {name: [([to_int(x, K) for x in o[0]], o[1], o[2], o[3], o[4], o[5]) for o in v] for name, v in objs.items()}
+            # which trees: C for one of its bins or without binning; D without binning, sometimes for a bin when it has redshifts
+            binC = rng.choice([None] + list(range(nb)) * 2)
+            binD = rng.choice(list(range(nb))) if (cols["d"][2] is not None and rng.random() < 0.25) else None
+            if entry == "AngularTree":
+                binC = binD = None
+            p, q = rng.randrange(2), rng.randrange(2)
+            binning = Binning(np.asarray(edges, dtype=float), closed=closed)
+
+            def tree_of(name, pid, b):
+                if entry == "AngularTree":
+                    # by hand from the stored columns of the patch: the weights given, absent, or ones
+                    data = cats[name][pid].load_data()
+                    coords = impl.AngularCoordinates(np.column_stack([data["ra"], data["dec"]]))
+                    return AngularTree(coords, data["weights"].copy() if "weights" in data.dtype.names else None, leafsize=rng.choice([1, 16]))
+                t = get_tree(entry, cats[name], pid, None if b is None else binning, rng)
+                return t if b is None else t[b]
+            t1 = tree_of("c", p, binC)
+            t2 = tree_of("d", q, binD)
+            nsc = rng.choice([1, 2])
+            amin = [math.radians(theta * f) for f in ([0.1, 0.25][:nsc])]
+            amax = [math.radians(theta * f) for f in ([1.0, 0.5][:nsc])]
+            ws = rng.choice([None, None, None, -1.0, 0.5])
+            wres = rng.choice([3, 7, 50])
+            got = t1.count(t2, np.asarray(amin), np.asarray(amax), weight_scale=ws, weight_res=wres)
+            cfg, _ = make_cfg(np.asarray(amin), np.asarray(amax), ws, wres, K)
+            ctx.bump("IGN/tree-z:%s|%s" % (prof_c, prof_d or "-"))
+            tree_case(ctx, TC, entry, cid, edges, closed, iobj["c"], p, binC, iobj["d"], q, binD, cfg, t1, t2, got, dict(spec=spec))
+            ctx.sample(dict(layer="L2T", spec=spec, got=[float(x) for x in got]), limit=5)
+        except Exception as e:
+            import traceback
+            ctx.count(key=("l2t-raise", k), kind="L2T/raised")
+            ctx.fail("c01-tree-entry-raises:%s:%s" % (entry, type(e).__name__), "building / counting trees of valid catalogs through %s raised %r" % (entry, e),
+                     dict(layer="L2T", spec=spec, traceback=traceback.format_exc()[-1500:]), case=(cid, "raise"))
+        finally:
+            for cat in cats.values():
+                shutil.rmtree(str(cat.cache_directory), ignore_errors=True)
+    return TC
+
+
 REGIONS = [("equator", 40.0, 3.0), ("wrap", 359.7, -12.0), ("npole", 77.0, 89.2), ("spole", 300.0, -89.5), ("mid", 150.0, 45.0)]
 
 
@@ -489,8 +689,10 @@ def l3_spec(rng, kind_hint=None):
     # the geometry is drawn from its own generator (the sequence of the draws above is what it was before)
     import random
     spec.update(geometry_spec(random.Random(spec["dseed"] + 7919)))
+    spec["ign"] = ign_spec(random.Random(spec["dseed"] + 104729))
     if kind_hint is not None:
         spec.update(SYM)  # the targeted probes of other classes keep data centred on the given centres
+        spec["ign"] = None
     return spec
 
 
@@ -508,7 +710,7 @@ def measure_with_workers(spec, call):
         impl.set_threads(1)
 
 
-def run_l3_case(ctx, spec, cid, terms, metas, cov):
+def run_l3_case(ctx, spec, cid, terms, metas, cov, TC=None):
     import random
     import yaw
     from yaw.correlation import measurements as M
@@ -595,6 +797,54 @@ def run_l3_case(ctx, spec, cid, terms, metas, cov):
         prior_cfg = yaw.Configuration.create(rmin=rmins, rmax=rmaxs, unit=unit, edges=edges,
                                              closed="left" if spec["closed"] == "right" else "right", max_workers=1, **cosmo_kw)
     sh_ref, sh_unk = shapes
+    # columns and values the measurement ignores (own generator: the draws above are what they were without it)
+    ign = spec.get("ign") or {}
+    irng = random.Random(spec["dseed"] + 15485863)
+    inputs = {}
+
+    def create(name, npts, spread, binned, shape):
+        """one catalog of the measurement; binned: whether the measurement bins it in redshift"""
+        pts, w, z = sample(npts, spread, binned, shape)
+        if binned and ign.get("ref_out"):
+            z = ign_outside(irng, ign["ref_out"], z, edges, zvals, ign.get("frac", 0.4))
+        prof = ign.get("rand_z" if name == "unk_rand" else "unk_z")
+        if not binned and prof:
+            z = ign_redshifts(irng, prof, len(pts), edges, zvals, ign.get("frac", 0.4))
+        ones = ign.get("ones", "none")
+        if w is None and (ones == "all" or (ones == "first" and name in ("ref", "data")) or (ones == "second" and name in ("unk", "rand"))
+                          or (ones == "rand" and name in ("unk_rand", "ref_rand", "rand"))):
+            w = [1.0] * len(pts)
+        extra = ign_extra(irng, ign["extra"], len(pts), w is not None, z is not None) if ign.get("extra") else None
+        cats[name] = make_catalog(ctx, name, pts, w, z, given(), extra=extra)
+        inputs[name] = (pts, w, z, extra)
+        if ign:
+            ctx.bump("IGN/z:%s/%s" % ("binned" if binned else "unbinned", (ign.get("ref_out") if binned else prof) or "-"))
+        return cats[name]
+
+    other_closed = "left" if spec["closed"] == "right" else "right"
+
+    def pretrees(names_binned):
+        """trees built explicitly before the measurement: with the binning the measurement will use, with another one
+        (binned trees on the unbinned sample, unbinned trees on the binned one, the other closed side), forced, or
+        with another leaf size"""
+        mode = ign.get("pretrees")
+        if not mode:
+            return
+        ctx.bump("IGN/pretrees:" + mode)
+        for name, binned in names_binned:
+            cat, has_z = cats[name], inputs[name][2] is not None
+            mine = dict(binning=edges if binned else None, closed=spec["closed"], max_workers=1)
+            if mode == "same":
+                cat.build_trees(**mine)
+            elif mode == "force":
+                cat.build_trees(None if binned else (edges if has_z else None), closed=other_closed, max_workers=1)
+                cat.build_trees(force=True, **mine)
+            elif mode == "leafsize":
+                cat.build_trees(leafsize=irng.choice([1, 2, 5]), **mine)
+            elif mode == "other":
+                cat.build_trees(None if binned else (edges if has_z else None), closed=spec["closed"], max_workers=1)
+            elif mode == "other-closed":
+                cat.build_trees(edges if (binned or has_z) else None, closed=other_closed, max_workers=1)
 
     def given():
         """the centres as handed to the next creation: coordinates, or the first catalog of the measurement"""
@@ -603,8 +853,9 @@ def run_l3_case(ctx, spec, cid, terms, metas, cov):
         return centers
     try:
         if spec["auto"]:
-            cats["data"] = make_catalog(ctx, "data", *sample(ref_n, ref_s, True, sh_ref), given())
-            cats["rand"] = make_catalog(ctx, "rand", *sample(unk_n, unk_s, True, sh_unk), given())
+            create("data", ref_n, ref_s, True, sh_ref)
+            create("rand", unk_n, unk_s, True, sh_unk)
+            pretrees([("data", True), ("rand", True)])
             if prior_cfg is not None:
                 yaw.autocorrelate(prior_cfg, cats["data"], cats["rand"], count_rr=False, max_workers=1)
             res = measure_with_workers(spec, lambda mw: yaw.autocorrelate(cfg, cats["data"], cats["rand"], count_rr=spec["count_rr"], max_workers=mw))
@@ -612,15 +863,14 @@ def run_l3_case(ctx, spec, cid, terms, metas, cov):
             if spec["count_rr"]:
                 kinds.append(("rr", "rand", "rand", True, True))
         else:
-            cats["ref"] = make_catalog(ctx, "ref", *sample(ref_n, ref_s, True, sh_ref), given())
-            cats["unk"] = make_catalog(ctx, "unk", *sample(unk_n, unk_s, False, sh_unk), given())
+            create("ref", ref_n, ref_s, True, sh_ref)
+            create("unk", unk_n, unk_s, False, sh_unk)
             kw = {}
             if spec["rands"] in ("both", "unk"):
-                cats["unk_rand"] = make_catalog(ctx, "unk_rand", *sample(unk_n, unk_s, False, sh_unk), given())
-                kw["unk_rand"] = cats["unk_rand"]
+                kw["unk_rand"] = create("unk_rand", unk_n, unk_s, False, sh_unk)
             if spec["rands"] in ("both", "ref"):
-                cats["ref_rand"] = make_catalog(ctx, "ref_rand", *sample(ref_n, ref_s, True, sh_ref), given())
-                kw["ref_rand"] = cats["ref_rand"]
+                kw["ref_rand"] = create("ref_rand", ref_n, ref_s, True, sh_ref)
+            pretrees([(nm, nm in ("ref", "ref_rand")) for nm in cats])
             if prior_cfg is not None:
                 yaw.crosscorrelate(prior_cfg, cats["ref"], cats["unk"], max_workers=1, **kw)
             res = measure_with_workers(spec, lambda mw: yaw.crosscorrelate(cfg, cats["ref"], cats["unk"], max_workers=mw, **kw))
@@ -636,6 +886,12 @@ def run_l3_case(ctx, spec, cid, terms, metas, cov):
             ctx.bump("skipped_empty_patch")   # a given centre attracted no object: creation must refuse (C09/C12)
             return
         raise
+    for name, (pts_in, w_in_, z_in, _) in inputs.items():
+        diff = stored_vs_input(cats[name], pts_in, w_in_, z_in)
+        if diff:
+            ctx.fail("c01-oracle-stored-records-differ-from-input",
+                     "catalog %r: %s (the brute-force count takes its objects from the stored records)" % (name, diff),
+                     dict(layer="L3", spec=spec, catalog=name), case=(cid, "stored", name))
     # linkage tables exactly as the code derives them
     order = sorted(cats.values(), key=lambda cat: cat.get_num_records(), reverse=True) if not spec["auto"] else \
         sorted([cats["data"], cats["rand"]], key=lambda cat: cat.get_num_records(), reverse=True)
@@ -654,7 +910,7 @@ def run_l3_case(ctx, spec, cid, terms, metas, cov):
     objs = {name: cat_objects(cat, edges, spec["closed"]) for name, cat in cats.items()}
     cen3 = {name: cat.get_centers().to_3d() for name, cat in cats.items()}
     K = scale_of([o[0] for v in objs.values() for o in v] + list(cen3.values()))
-    iobj = {name: [([to_int(x, K) for x in o[0]], o[1], o[2], o[3]) for o in v] for name, v in objs.items()}
+    iobj = {name: [([to_int(x, K) for x in o[0]], o[1], o[2], o[3], o[4], o[5]) for o in v] for name, v in objs.items()}
     # coverage: every stored radius must contain every object of its patch around the STORED centre (the hypothesis under
     # which pruning by centre distance is sound).  Squared chords of the implementation's own unit vectors, exact integers;
     # the stored radius (an angle) is turned into a chord the way the implementation does and bracketed by 2^-40 (relative),
@@ -673,7 +929,7 @@ def run_l3_case(ctx, spec, cid, terms, metas, cov):
                 bad.append(dict(patch=o[3], chord_object=math.sqrt(float(Fraction(dd2, 1 << (2 * K)))), chord_radius=float(crad[o[3]])))
         uncovered[name] = bad
         cov["terms"].append("c01_cover_case %s %s %s %s" % (
-            fq.lst([obj_term(*o) for o in iobj[name]]), fq.lst([obj_term(c, 0.0, 0, i) for i, c in enumerate(icen)]),
+            fq.lst([obj_term(*o[:4]) for o in iobj[name]]), fq.lst([obj_term(c, 0.0, 0, i) for i, c in enumerate(icen)]),
             fq.qlist(tlo), fq.qlist(thi)))
         cov["metas"].append((cid, name, dict(layer="L3-cover", spec=spec, catalog=name, uncovered=bad[:4], n_uncovered=len(bad),
                                             radii=[float(x) for x in cat.get_radii().data])))
@@ -710,9 +966,67 @@ def run_l3_case(ctx, spec, cid, terms, metas, cov):
             from yaw.catalog.trees import AngularTree
             wres = inspect.signature(AngularTree.count).parameters["weight_res"].default
         cb, _ = make_cfg(np.asarray(amin), np.asarray(amax), cfg.scales.rweight, wres, K)
+        cb["call"] = (np.asarray(amin), np.asarray(amax), cfg.scales.rweight, wres)
         cfgs.append(cb)
         theta_hi.append([float(x) for x in np.atleast_1d(amax)])
     ns = len(rmaxs)
+    ign_blame = {}
+
+    def blame_ignored():
+        """a failing cell in a scenario whose catalogs carry ignored columns / values: the same measurement on twin catalogs
+        that differ in ONE ignored respect (same positions, weights, patches: equal cores, equal bin membership) must
+        give the same numbers (C01_unbinned_counts_ignore_columns, C01_binned_counts_membership_only,
+        C01_absent_weights_are_ones).  Returns the first respect in which it does not."""
+        right = spec["closed"] == "right"
+        zlo, zhi = float(edges[0]), float(edges[-1])
+
+        def inside(v):
+            return (zlo < v <= zhi) if right else (zlo <= v < zhi)
+        variants = [
+            ("redshift-column-of-unbinned-sample", "the counts change when the redshift column of the unbinned sample (unknown / its randoms) is "
+             "removed: that sample is counted with all its objects, whatever the column holds"),
+            ("redshifts-outside-binning", "the counts change when redshifts outside the binning are replaced by another value outside "
+             "the binning: they are excluded by the closed-side rule only"),
+            ("weight-column-of-ones", "the counts change when a weight column of ones is removed"),
+            ("extra-columns", "the counts change when further columns of the input table are removed"),
+        ]
+        for var, txt in variants:
+            tw, changed = {}, False
+            for name, (pts_in, w_in_, z_in, extra_in) in inputs.items():
+                binned = spec["auto"] or name in ("ref", "ref_rand")
+                w2, z2, e2 = w_in_, z_in, extra_in
+                if var == "redshift-column-of-unbinned-sample" and not binned and z_in is not None:
+                    z2, changed = None, True
+                if var == "redshifts-outside-binning" and binned and any(not inside(v) for v in z_in):
+                    z2, changed = [v if inside(v) else zhi * 2.0 + 1.0 for v in z_in], True
+                if var == "weight-column-of-ones" and w_in_ is not None and all(v == 1.0 for v in w_in_):
+                    w2, changed = None, True
+                if var == "extra-columns" and extra_in:
+                    e2, changed = None, True
+                tw[name] = (pts_in, w2, z2, e2)
+            if not changed:
+                continue
+            tcat = {name: make_catalog(ctx, name + "_twin", pts_in, w2, z2, cats[name], extra=e2) for name, (pts_in, w2, z2, e2) in tw.items()}
+            try:
+                if spec["auto"]:
+                    res2 = yaw.autocorrelate(cfg, tcat["data"], tcat["rand"], count_rr=spec["count_rr"], max_workers=1)
+                else:
+                    res2 = yaw.crosscorrelate(cfg, tcat["ref"], tcat["unk"], max_workers=1,
+                                              **{k2: tcat[k2] for k2 in ("unk_rand", "ref_rand") if k2 in tcat})
+                same = True
+                for knd, _, _, _, _ in kinds:
+                    for cf, cf2 in zip(res, res2):
+                        a, a2 = getattr(cf, knd), getattr(cf2, knd)
+                        same = same and np.array_equal(a.counts.counts, a2.counts.counts) \
+                            and np.array_equal(a.sum_weights.sum_weights1, a2.sum_weights.sum_weights1) \
+                            and np.array_equal(a.sum_weights.sum_weights2, a2.sum_weights.sum_weights2)
+            finally:
+                for c2 in tcat.values():
+                    shutil.rmtree(str(c2.cache_directory), ignore_errors=True)
+            if not same:
+                return var, txt + " (scenario: %s)" % (ign,)
+        return None
+
     for kind, n1, n2, auto, binned2 in kinds:
         counts = np.stack([getattr(cf, kind).counts.counts for cf in res])  # s, b, i, j
         sw = getattr(res[0], kind).sum_weights
@@ -748,6 +1062,16 @@ def run_l3_case(ctx, spec, cid, terms, metas, cov):
                                 lost.append((s, b, i, j, float(want), float(have)))
                             elif have > want:
                                 extra.append((s, b, i, j, float(want), float(have)))
+        # stored weight sums (python side: classification only)
+        swbad = []
+        for b in range(spec["nbins"]):
+            for i in range(npatch):
+                w1 = sum((Fraction(o[1]) for o in O1 if o[3] == i and o[2] == b + 1), Fraction(0))
+                w2 = sum((Fraction(o[1]) for o in O2 if o[3] == i and (o[2] == b + 1 or not binned2)), Fraction(0))
+                if Fraction(float(sw1[b][i])) != w1:
+                    swbad.append((1, b, i, float(w1), float(sw1[b][i])))
+                if Fraction(float(sw2[b][i])) != w2:
+                    swbad.append((2, b, i, float(w2), float(sw2[b][i])))
         if tie:
             ctx.bump("near_tie_skipped")
             continue
@@ -760,9 +1084,10 @@ def run_l3_case(ctx, spec, cid, terms, metas, cov):
                   kind="L3/%s/%s/%s/%s" % ("auto" if spec["auto"] else "cross", kind, spec["flavour"], spec["region"]))
         ctx.bump("L3/unit:" + unit)
         ctx.bump("L3/workers:%d" % spec.get("workers", 1))
-        terms.append("Nat.add (c01_e2e_case %s %s %s %s %s %s %s %s %s %s %s %s %s)" % (
-            fq.b(auto), fq.b(binned2),
-            fq.lst([obj_term(*o) for o in O1]), fq.lst([obj_term(*o) for o in O2]),
+        # the catalogs go to Coq with their COLUMNS (weight / redshift or none); bin membership is decided there
+        terms.append("Nat.add (c01_ign_e2e_case %s %s %s %s %s %s %s %s %s %s %s %s %s %s %s)" % (
+            fq.qlist([float(e) for e in edges]), fq.b(spec["closed"] == "right"), fq.b(auto), fq.b(binned2),
+            fq.lst([aobj_of(o) for o in O1]), fq.lst([aobj_of(o) for o in O2]),
             fq.lst([cfg_term(c) for c in cfgs]), fq.nat(ns), fq.nat(npatch),
             fq.qmat(dist), fq.qlist(radii), fq.q(Mang),
             fq.lst([fq.lst([fq.qmat(counts[s, b]) for b in range(spec["nbins"])]) for s in range(ns)]),
@@ -774,7 +1099,17 @@ def run_l3_case(ctx, spec, cid, terms, metas, cov):
         terms[-1] = terms[-1].replace("nlist_links_ok", fq.b(links_ok))
         # classification data for a failing cell
         cause = None
-        if lost:
+        ign_cause = None
+        if (lost or extra or swbad) and ign:
+            if "v" not in ign_blame:
+                ign_blame["v"] = blame_ignored()
+            if ign_blame["v"]:
+                var, txt = ign_blame["v"]
+                ign_cause = var
+                cause = ("c01-count-depends-on-ignored:" + var, txt)
+        if cause is not None:
+            pass
+        elif lost:
             s, b, i, j = lost[0][:4]
             unlinked = j not in links_impl[i]
             if unlinked and max(theta_hi[b]) > Mang:
@@ -804,15 +1139,35 @@ def run_l3_case(ctx, spec, cid, terms, metas, cov):
                 cause = ("c01-count-lost", "pairs lost in a linked patch pair")
         elif extra:
             cause = ("c01-count-extra", "more pair weight than exists")
-        metas.append((case_id, dict(layer="L3", spec=spec, kind=kind, lost=lost[:4], extra=extra[:4], Mang=Mang,
+        metas.append((case_id, dict(layer="L3", spec=spec, kind=kind, lost=lost[:4], extra=extra[:4], swbad=swbad[:4], ign_cause=ign_cause, Mang=Mang,
                                     theta_hi=theta_hi, radii=radii, links=[sorted(links_impl[i]) for i in range(npatch)],
                                     uncovered={nm: v[:3] for nm, v in uncovered.items() if v}), cause))
         ctx.sample(dict(layer="L3", spec=spec, kind=kind, n1=len(O1), n2=len(O2), nonzero=nonzero), limit=3)
+    # the trees the measurement left in the caches (built implicitly, or explicitly before it): one pair per scenario that
+    # carries ignored columns / values
+    if ign and TC is not None:
+        from yaw.catalog.trees import BinnedTrees
+        n1, n2 = ("data", "rand") if spec["auto"] else ("ref", irng.choice([nm for nm in cats if nm in ("unk", "unk_rand")]))
+        b = irng.randrange(spec["nbins"])
+        p, q = irng.randrange(npatch), irng.randrange(npatch)
+        bt1, bt2 = BinnedTrees(cats[n1][p]), BinnedTrees(cats[n2][q])
+        entry = "cached-by-measurement"     # built implicitly by the measurement, or explicitly before it (spec: ign.pretrees)
+        if bt1.is_binned() and bt2.is_binned() == bool(spec["auto"]):
+            t1 = bt1.trees[b]
+            t2 = bt2.trees[b] if spec["auto"] else bt2.trees
+            amin, amax, ws, wres = cfgs[b]["call"]
+            got = t1.count(t2, amin, amax, weight_scale=ws, weight_res=wres)
+            tree_case(ctx, TC, entry, cid, edges, spec["closed"], iobj[n1], p, b, iobj[n2], q, b if spec["auto"] else None,
+                      cfgs[b], t1, t2, got, dict(spec=spec, catalogs=(n1, n2)))
+        else:
+            ctx.fail("c01-cached-trees-wrong-kind", "after the measurement the cached trees of %r are %s and those of %r are %s" % (
+                n1, "binned" if bt1.is_binned() else "unbinned", n2, "binned" if bt2.is_binned() else "unbinned"),
+                dict(layer="L2T", spec=spec), case=(cid, "tree", entry))
     for name in cats:
         shutil.rmtree(str(cats[name].cache_directory), ignore_errors=True)
 
 
-def run_l3(ctx):
+def run_l3(ctx, TC=None):
     terms, metas = [], []
     cov = dict(terms=[], metas=[])
     specs = [l3_spec(ctx.rng) for _ in range(ctx.n(10, 150))]
@@ -877,16 +1232,35 @@ def run_l3(ctx):
             if s["unit"] in ("arcmin", "deg"):
                 s["cosmo"] = None
             specs.append(s)
+    # deterministic: columns and values the measurement ignores.  Cross-correlations whose unknown sample / randoms carry a
+    # redshift column of every profile (trees implicit or built explicitly beforehand), autocorrelations and references with
+    # redshifts outside the binning, weight columns of ones, further columns.
+    irng0 = random.Random(4242)
+    ign_probes = []
+    for i, prof in enumerate(UNK_Z_PROFILES):
+        ign_probes.append((False, dict(unk_z=prof, rand_z=UNK_Z_PROFILES[(i + 3) % len(UNK_Z_PROFILES)] if i % 2 else prof,
+                                       ref_out=REF_OUT_PROFILES[i % len(REF_OUT_PROFILES)], ones=["none", "all", "second", "rand"][i % 4],
+                                       extra=([None] + EXTRA_PROFILES)[i % 6], pretrees=([None] + PRETREES)[i % 6], frac=[0.4, 0.7][i % 2])))
+    for i, prof in enumerate(REF_OUT_PROFILES[:ctx.n(3, 6)]):
+        ign_probes.append((True, dict(unk_z=None, rand_z=None, ref_out=prof, ones=["all", "first", "none"][i % 3],
+                                      extra=EXTRA_PROFILES[i % 5], pretrees=PRETREES[i % 5], frac=0.4)))
+    for rep in range(ctx.n(1, 3)):
+        for auto, ig in ign_probes:
+            s = l3_spec(prng, "plain")
+            s.update(auto=auto, rweight=None, prior=(rep == 1), nbins=irng0.choice([1, 2]), npatch=irng0.choice([2, 3]), zmin=0.2, zmax=0.6,
+                     spacing_f=irng0.choice([0.8, 1.5]), unit=irng0.choice(["arcmin", "deg", "rad"]), cosmo=None, spreads=(0.3, 0.3),
+                     sizes=(12, 12), count_rr=True, rands="both", flavour="ignored", ign=dict(ig), workers=irng0.choice([1, 1, 2]))
+            specs.append(s)
     for cid, spec in enumerate(specs):
         try:
-            run_l3_case(ctx, spec, cid, terms, metas, cov)
+            run_l3_case(ctx, spec, cid, terms, metas, cov, TC)
         except Exception as e:
             import traceback
             ctx.count(key=("l3-raise", cid), kind="L3/raised")
             ctx.fail("c01-measure-raises:%s" % type(e).__name__, "measurement on valid catalogs raised %r" % e,
                      dict(layer="L3", spec=spec, traceback=traceback.format_exc()[-1500:]), case=(cid, "raise"))
     ctx.log("L3: %d scenarios run, %d count cases, %d coverage cases" % (len(specs), len(terms), len(cov["terms"])))
-    codes = ctx.shards("Cases_C01_L3", HEADER, terms, shard=3)
+    codes = ctx.shards("Cases_C01_L3", HEADER_IGN, terms, shard=3)
     ctx.log("L3: count cases evaluated")
     failed = {}   # L3 scenario -> case ids with a failing count cell
     for (cid, meta, cause), c in zip(metas, codes):
@@ -903,7 +1277,12 @@ def run_l3(ctx):
                 cid, sig, "auto" if sp["auto"] else "cross", sp["flavour"], sp.get("shapes"), sp.get("faces"), sp.get("grid"),
                 sp.get("spacing_f"), sp["region"], sp["unit"], len(meta["lost"]), len(meta["extra"])))
         if c & 4:
-            ctx.fail("c01-sum-weights", "stored per-bin per-patch weight sums differ from the true sums", meta, case=cid)
+            if meta.get("ign_cause"):
+                ctx.fail("c01-sum-weights-depend-on-ignored:" + meta["ign_cause"],
+                         "stored per-bin per-patch weight sums differ from the sums over the objects of the sample, and change with a column / "
+                         "value the measurement is documented to ignore (%s)" % cause[1], meta, case=cid)
+            else:
+                ctx.fail("c01-sum-weights", "stored per-bin per-patch weight sums differ from the true sums", meta, case=cid)
         if c & 1 or c & 8:
             ctx.disagree("Cases_C01_L3", cid, dict(code=c, meta=meta))
     # coverage of the stored radii (the table the linkage model takes from the implementation)
@@ -926,4 +1305,6 @@ def run_l3(ctx):
 def run(ctx):
     impl.set_threads(1)
     run_l1(ctx)
-    run_l3(ctx)
+    TC = run_trees(ctx)
+    run_l3(ctx, TC)
+    finish_tree_cases(ctx, TC)
